@@ -282,3 +282,58 @@ theorem bitRev_injOn : ∀ (b i j : ℕ), i < 2 ^ b → j < 2 ^ b → bitRev b i
     omega
 
 end Lattigo.EncoderC
+
+namespace Lattigo.EncoderC
+
+/-! ## nearest-multiple contract of `decodePublic`, conjugate exponents -/
+
+/-- `roundHalfAway num den` is a nearest integer to `num/den`: no integer is strictly closer. -/
+theorem roundHalfAway_nearest_int (num : ℤ) (den : ℕ) (hd : 0 < den) (k' : ℤ) :
+    |(roundHalfAway num den : ℚ) - (num : ℚ) / den| ≤ |(k' : ℚ) - (num : ℚ) / den| := by
+  have h := roundHalfAway_spec num den hd
+  by_contra hlt
+  push Not at hlt
+  have h1 : |(k' : ℚ) - (roundHalfAway num den : ℚ)| < 1 := by
+    calc |(k' : ℚ) - (roundHalfAway num den : ℚ)|
+        = |((k' : ℚ) - (num : ℚ) / den) - ((roundHalfAway num den : ℚ) - (num : ℚ) / den)| := by congr 1; ring
+      _ ≤ |(k' : ℚ) - (num : ℚ) / den| + |(roundHalfAway num den : ℚ) - (num : ℚ) / den| := abs_sub _ _
+      _ < 1 := by linarith
+  have h2 : |k' - roundHalfAway num den| < 1 := by exact_mod_cast h1
+  have h3 : k' = roundHalfAway num den := by
+    have := abs_lt.mp h2; omega
+  rw [h3] at hlt
+  exact lt_irrefl _ hlt
+
+/-- **DecodePublic contract**: the published value `k/2^logprec` is a NEAREST multiple of `2^-logprec`. -/
+theorem roundToPrec_nearest (num : ℤ) (den logprec : ℕ) (hd : 0 < den) (k' : ℤ) :
+    |(roundToPrec num den logprec : ℚ) / 2 ^ logprec - (num : ℚ) / den|
+      ≤ |(k' : ℚ) / 2 ^ logprec - (num : ℚ) / den| := by
+  unfold roundToPrec
+  have h := roundHalfAway_nearest_int (num * 2 ^ logprec) den hd k'
+  have hp : (0 : ℚ) < 2 ^ logprec := by positivity
+  have e : ∀ c : ℚ, c / 2 ^ logprec - (num : ℚ) / den = (c - ((num * 2 ^ logprec : ℤ) : ℚ) / den) / 2 ^ logprec := by
+    intro c; push_cast; field_simp
+  rw [e, e, abs_div, abs_div, abs_of_pos hp]
+  exact div_le_div_of_nonneg_right h hp.le
+
+/-- ties go away from zero (`math.Round`, resp. `±0.5` then truncation). -/
+theorem roundHalfAway_tie (h : ℤ) : roundHalfAway (2 * h + 1) 2 = if 0 ≤ 2 * h + 1 then h + 1 else h := by
+  unfold roundHalfAway
+  dsimp only
+  split <;> split <;> omega
+
+/-- slot `i` and the conjugate of slot `j` never share an exponent: `5^i ≢ −5^j (mod 2^k)`, `k ≥ 2`. -/
+theorem five_pow_ne_neg_five_pow (k : ℕ) (hk : 2 ≤ k) (i j : ℕ) : (5 ^ i + 5 ^ j) % 2 ^ k ≠ 0 := by
+  intro h
+  have h4 : (2 : ℕ) ^ k = 4 * 2 ^ (k - 2) := by
+    have : k = (k - 2) + 2 := by omega
+    conv_lhs => rw [this, pow_add]
+    ring
+  have hd : 4 ∣ 5 ^ i + 5 ^ j := by
+    have : 2 ^ k ∣ 5 ^ i + 5 ^ j := Nat.dvd_of_mod_eq_zero h
+    exact Dvd.dvd.trans ⟨2 ^ (k - 2), h4⟩ this
+  have hi := five_pow_mod4 i
+  have hj := five_pow_mod4 j
+  omega
+
+end Lattigo.EncoderC
